@@ -10,11 +10,12 @@ CLAIMED = {
                   "with clock jumps and mid-lookup clock ticks against real "
                   "MoneyConverter objects, RefRates reference model as "
                   "oracle, ddmin-minimised replay files",
-        text="Seeded exploration of update/lookup/clock histories (tens of "
-             "thousands of runs per quick batch) with a full get_rate sweep "
+        text="Seeded exploration of update/lookup/clock histories (a few "
+             "thousand runs per quick batch, tens of thousands per thorough "
+             "batch) with a full get_rate sweep "
              "after every step, compared with an independent last-write-wins "
              "model; the clock is simulated (jumps, ticks during a lookup). "
-             "Evidence, not proof: histories are bounded (<=40 ops, <=3 "
+             "Evidence, not proof: histories are bounded (<=40 ops - one run in fifty up to 200 -, <=3 "
              "converters, <=5 currencies) and sampled.",
         note="Trusted: ExchangeRate arithmetic (expected rates are built by "
              "the library's constructor from the model-selected spec), "
